@@ -110,6 +110,22 @@ Proof.
 Qed.
 Print Assumptions C06_ineligible_explicit_input_refused.
 
+(** In particular, across whole histories: an explicit selection naming an
+    output that a known (confirmed or unconfirmed) transaction spends, or an
+    output under an unexpired lease, is refused. *)
+Theorem C06_spent_or_leased_explicit_input_refused :
+  ∀ U h x r shuffle targets own aty vsz op,
+    wf_universe U = true → chain_consistent U h = true → op ∈ r_explicit r →
+    ((∃ t, known (fs (spec_run U h)) t = true ∧ op ∈ tx_ins U t) ∨
+     leased (fs (spec_run U h)) op (clock (run U h)) = true) →
+    create x r shuffle targets (wallet_cands U (run U h) own aty vsz) = None.
+Proof.
+  intros U h x r shuffle targets own aty vsz op Hwf Hcons Hsel [(t & Hk & Hop)|Hl].
+  - exact (explicit_spent_refused U h x r shuffle targets own aty vsz t op Hwf Hcons Hk Hop Hsel).
+  - exact (explicit_leased_refused U h x r shuffle targets own aty vsz op Hwf Hcons Hl Hsel).
+Qed.
+Print Assumptions C06_spent_or_leased_explicit_input_refused.
+
 (** Once a created transaction [t] has been published (recorded as an
     unconfirmed transaction: [Seen t]), after ANY later sequence of
     wallet-side events - further publications, leases, releases, clock
